@@ -93,7 +93,7 @@ def stdinFix (fixEven : Bool) (f : File) : Bool × Nat :=
   let unfixableError := count f.viols isLint true true (some false) > 0
   let e := handleUnparsable fixEven [f]
   let f' := afterDiscard fixEven f
-  let outputs := decide (count f'.viols isLint true true (some true) > 0) && f.changed
+  let outputs := decide (count f'.viols isLint true false (some true) > 0) && f.changed   -- warnings are fixed too (repair)
   (outputs, if templaterError || unfixableError then 1 else e)
 
 /-- `api.simple.fix` (after the repair `fix:` commit): gates on the *unfiltered* TMP/PRS count and
